@@ -15,7 +15,8 @@ Coq (`vm_compute` on coq/gen/C15/*.v):
     (or a real chain's wrapped) take_step ticks the clock by 2^-20 s ... 600 s, a
     cap on steps / clock calls turns a run_for that does not return into an
     observation; the (steps taken, time) pair at every loop check is compared
-    with the model's trace exactly;
+    with the model's trace exactly (also for EnsembleSampler.run_for, where one step
+    stores n_walkers samples);
   * ChainPool with real worker processes against deep copies advanced serially.
 On a disagreement the property itself (counters) is evaluated on the implementation.
 """
@@ -133,6 +134,8 @@ def counts(ch):
     if hasattr(ch, "params"):
         ls = {len(p.samples) for p in ch.params}
         return (ch.chain_length, ls.pop() if len(ls) == 1 else -1, len(ch.probs))
+    if hasattr(ch, "walker_positions"):
+        return ens_counts(ch)[:3]
     return (ch.chain_length, len(ch.theta), len(ch.probs))
 
 
@@ -287,7 +290,7 @@ def run_timed(chain, costs, per_call, kwargs, cap_steps, cap_calls, wrap=False):
     import inference.mcmc.base as base
     clock = LoggedClock(per_call, chain, chain.chain_length, cap_calls)
     if wrap:   # a real chain: its own take_step, followed by the tick
-        orig, state = chain.take_step, {"calls": 0}
+        orig, state = getattr(chain, "take_step", None), {"calls": 0}
 
         def stepped():
             orig()
@@ -295,7 +298,8 @@ def run_timed(chain, costs, per_call, kwargs, cap_steps, cap_calls, wrap=False):
             state["calls"] += 1
             if state["calls"] > cap_steps:
                 raise Runaway(f"more than {cap_steps} steps")
-        chain.take_step = stepped
+        if orig is not None:      # (the pinned EnsembleSampler has no take_step: run_for itself will say so)
+            chain.take_step = stepped
     else:
         chain.clock, chain.costs, chain.cap = clock, costs, cap_steps
     saved = base.time
@@ -312,7 +316,7 @@ def run_timed(chain, costs, per_call, kwargs, cap_steps, cap_calls, wrap=False):
     finally:
         base.time = saved
         if wrap:
-            del chain.take_step
+            chain.__dict__.pop("take_step", None)
         else:
             chain.clock = None
     return {"status": status, "error": err, "trace": clock.log, "inexact": clock.inexact,
@@ -504,8 +508,18 @@ def run(rep: C.Report, tier: str) -> int:
     CAP_STEPS, CAP_CALLS, FUEL = 400_000, 3000, 3000
     rf_cases = gen_run_for(r, tier)
     for k, rc in enumerate(rf_cases):
-        use_real = (k % 5 == 4) and max(rc["costs"]) >= Fraction(1, 1024)
-        if use_real:
+        use_real = (k % 5 == 4 or k % 7 == 3) and max(rc["costs"]) >= Fraction(1, 1024)
+        w = 1
+        if use_real and k % 7 == 3:
+            w = r.randint(3, 6)
+            chain = make_ensemble(w, r.randrange(10 ** 6))
+            if r.random() < 0.5:
+                try:
+                    chain.advance(2)
+                except Exception:
+                    pass
+            who = f"EnsembleSampler/{w}"
+        elif use_real:
             chain = make_real(r.choice(["Gibbs", "Pca", "Hmc"]), r.randrange(10 ** 6))
             who = type(chain).__name__
         else:
@@ -516,7 +530,7 @@ def run(rep: C.Report, tier: str) -> int:
         bad = oracle_run_for(rc["costs"], rc["per_call"], rc["kwargs"], out)
         c0 = float(max(rc["costs"]))
         rep.count("run_for:cost " + ("<=1e-5s" if c0 <= 1e-5 else "<=0.01s" if c0 <= 0.01 else "<1s" if c0 < 1 else "1s..60s" if c0 <= 60 else ">60s"))
-        rep.count(f"run_for:{'real' if use_real else 'stub'}")
+        rep.count(f"run_for:{'stub' if not use_real else 'ensemble' if w > 1 else 'real chain'}")
         rep.case(("run_for", rc["costs"], rc["per_call"], sorted(rc["kwargs"].items())))
         rt = run_time_of(rc["kwargs"])
         desc = {"chain": who, "costs_s": [str(c) for c in rc["costs"]], "time_call_cost_s": str(rc["per_call"]),
@@ -526,7 +540,7 @@ def run(rep: C.Report, tier: str) -> int:
             rep.count("run_for:dropped (float clock not exact)")
             continue
         if out["status"] == "exception":
-            direct.append(("C15/run_for", bad[0], desc))
+            direct.append(("C15/run_for" + ("/EnsembleSampler" if w > 1 else ""), bad[0], desc))
             continue
         cl, ns, npb = out["final_counts"]
         if out["status"] == "ok" and not (cl == ns == npb):
@@ -541,7 +555,7 @@ def run(rep: C.Report, tier: str) -> int:
         else:
             obs = "None"
         coq_cases.append(("C15/run_for" + ("/slow-step" if min(rc["costs"]) >= 1 else ""), desc,
-                          f"CRunFor {C.clist([cq_exact(c) for c in rc['costs']])} {cq_exact(rc['per_call'])} "
+                          f"CRunFor {C.cnat(w)} {C.clist([cq_exact(c) for c in rc['costs']])} {cq_exact(rc['per_call'])} "
                           f"{cq_exact(CLOCK_START + float(rc['per_call']))} {cq_exact(rt)} {C.cnat(FUEL)} {obs}", bad))
         if len(rep.samples) < 4 and out["status"] == "ok" and len(out["trace"]) > 3:
             rep.sample(dict(desc, first_checks=[(s, float(t - out["trace"][0][1])) for s, t in out["trace"][:5]]))
@@ -657,7 +671,7 @@ def run(rep: C.Report, tier: str) -> int:
         "run_for: the clock is scripted (start 2^20 s, costs and budgets multiples of 2^-30 s) so that float clock arithmetic "
         "and int(steps/elapsed) are exact; cases where they are not are dropped and counted",
         "ChainPool: fork start method, pickling of chains as multiprocessing does it",
-        "EnsembleSampler.run_for is outside the model (EnsembleSampler has no take_step, see notes/C15.md)",
+        "EnsembleSampler.run_for: one take_step stores n_walkers samples (parameter w of the model)",
     ]
     return rep.finish(
         level="proof",
@@ -692,8 +706,12 @@ def replay(path):
         obs = apply_ens(es, c["advance_calls"])
         bad = oracle_ens(c["n_walkers"], c["iterations_before"], c["advance_calls"], obs)
     elif "run_for_kwargs" in c:
-        chain = StubChain(1) if c["chain"] == "stub" else make_real(
-            {"GibbsChain": "Gibbs", "PcaChain": "Pca", "HamiltonianChain": "Hmc"}[c["chain"]], 1)
+        if c["chain"] == "stub":
+            chain = StubChain(1)
+        elif c["chain"].startswith("EnsembleSampler"):
+            chain = make_ensemble(int(c["chain"].split("/")[1]), 1)
+        else:
+            chain = make_real({"GibbsChain": "Gibbs", "PcaChain": "Pca", "HamiltonianChain": "Hmc"}[c["chain"]], 1)
         costs = [Fraction(x) for x in c["costs_s"]]
         out = run_timed(chain, [float(x) for x in costs], float(Fraction(c["time_call_cost_s"])),
                         c["run_for_kwargs"], 400_000, 3000, wrap=c["chain"] != "stub")
